@@ -270,9 +270,9 @@ func runC02(tier string, _ []string) int {
 	vlib.SetPortBlock(2)
 	c.SetRule("per scenario a downstream instance (real Sync client, period 1 s) linked to a bare upstream instance; a PRNG history of 6-25 acknowledged steps over {node-point write, edge-point write, create node, delete, undelete} x {downstream, upstream} x nodes inside the device subtree (nested groups), interleaved with link loss (sync node disabled), recovery, upstream restarts on the same file (also in two steps: the bus first, the store later, so that the downstream's reconnect and first catch-up attempt find a bus nobody answers on) restarts of the downstream instance itself, and writes placed *inside* a catch-up pass (performed from the sync.afterLocalFetch / afterRemoteFetch / beforeChildren hook sites in the sync client's own goroutine, aimed at the node the pass is comparing), always followed by a fixed list of corner scenarios (both sides write one identity during an outage; create upstream / downstream during an outage; delete downstream / upstream during an outage; delete + undelete; nested create under a node created during the outage). After the last write the link is up; catch-up passes are counted passively (nodes.all.<device> requests on the downstream bus) and after each pass both device subtrees are walked (deleted included) and compared: placements, newest point per identity of every node and edge. Convergence is demanded within 10 passes and must then hold on two consecutive walks; the agreed value of every identity the harness wrote must be at least as new as the newest acknowledged write on either side, and anything newer must have been seen on a bus. distinct = (set of operation kinds performed during outages, passes needed)")
 	c.Assume("the device's own top edge upstream is not compared (deliberately not synchronised); origins are not compared (whole-node transfer stamps the sync node as origin); binary data and tombstone counts are; equal timestamps on one identity are not generated")
-	nScen := c.N(16, 128)
+	nScen := c.N(18, 144)
 	wd := c.NewWatchdog()
-	corners := []string{"both-write-same-identity", "create-upstream", "create-downstream", "delete-downstream", "delete-upstream", "delete-undelete-downstream", "nested-create-downstream", "nested-create-upstream", "upstream-restart", "mid-pass", "upstream-restart-store-late", "edge-point-upstream", "downstream-restart", "glued-identities", "glued-identities", "random", "random"}
+	corners := []string{"both-write-same-identity", "create-upstream", "create-downstream", "delete-downstream", "delete-upstream", "delete-undelete-downstream", "nested-create-downstream", "nested-create-upstream", "upstream-restart", "mid-pass", "upstream-restart-store-late", "edge-point-upstream", "downstream-restart", "glued-identities", "glued-identities", "late-delivery", "late-delivery", "random"}
 	vlib.Parallel(nScen, 4, func(i int) {
 		r := vlib.NewR(c.Seed, "c02", i)
 		s := &syncCase{c: c, wd: wd, i: i, r: r, clock: 1750000000e9, tapped: map[string]bool{}, outage: map[string]bool{}, history: map[string]bool{}}
@@ -425,6 +425,25 @@ func runC02(tier string, _ []string) int {
 			if r.Chance(0.1) {
 				p.Tombstone = []int{1, 2, 3}[r.Intn(3)]
 			}
+			return s.write(side, false, n.ID, "", p)
+		}
+		// a delivery that comes late: older than what the identity already holds (on this side), with another
+		// value and a higher tombstone count - it must lose on both sides, whatever the link does meanwhile
+		staleWrite := func(side string, n *syncNodeRec) error {
+			var cands []syncWrite
+			for _, w := range s.writes {
+				if w.Acked && !w.Edge && w.Node == n.ID && w.Point.Type != "probe" {
+					cands = append(cands, w)
+				}
+			}
+			if len(cands) == 0 {
+				return nodeWrite(side, n)
+			}
+			w := cands[r.Intn(len(cands))]
+			mark("stalewrite@" + side)
+			p := w.Point
+			p.Time = p.Time.Add(-time.Duration(1+r.Intn(400)) * time.Nanosecond)
+			p.Value, p.Text, p.Tombstone = p.Value+0.5, "stale", w.Point.Tombstone+1+r.Intn(2)
 			return s.write(side, false, n.ID, "", p)
 		}
 		edgeWrite := func(side string, n *syncNodeRec) error {
@@ -674,6 +693,15 @@ func runC02(tier string, _ []string) int {
 				step(edgeWrite("U", v1))
 				step(edgeWrite("U", v1))
 				step(edgeWrite("D", v2))
+			case "late-delivery":
+				step(nodeWrite("D", v1))
+				step(nodeWrite("U", v2))
+				if scErr == nil {
+					barrier()
+				}
+				step(setLink(false))
+				step(staleWrite([]string{"D", "U"}[i%2], v1))
+				step(staleWrite([]string{"U", "D"}[i%2], v2))
 			case "glued-identities":
 				// two identities of one node whose type and key strings coincide when written one after the
 				// other (v/10 and v1/0); one is written downstream, the other - later - upstream, link down
@@ -731,6 +759,8 @@ func runC02(tier string, _ []string) int {
 				continue
 			}
 			switch roll := r.Intn(100); {
+			case roll < 8:
+				step(staleWrite(side, n))
 			case roll < 35:
 				step(nodeWrite(side, n))
 			case roll < 45:
